@@ -175,6 +175,12 @@ def run_case(case):
     for k, op in enumerate(prologue + list(case["ops"])):
         if late and k == len(prologue):
             for m_ in models:
+                first = next(iter(late[id(m_)]), None)
+                if first is not None and (k + nm) % 2:
+                    # the environment that is being replaced is not empty: it holds an agent (without components) whose id
+                    # also occurs in the prepared world - ids are unique per environment, not per model
+                    m_.environment.add_agent(Agent(first.id, m_))
+                    labels.add("replaced-environment-holds-same-id")
                 m_.set_environment(late[id(m_)])
             late = None
             labels.add("populated-world-installed")
